@@ -245,16 +245,23 @@ struct Faulty {
     seeks: usize,
     fail_seek_at: Option<usize>,
     fail_read: Option<(usize, u64)>,
+    kind: std::io::ErrorKind,
     reached: Arc<Mutex<bool>>,
 }
 
 impl std::io::Read for Faulty {
     fn read(&mut self, buf: &mut [u8]) -> std::io::Result<usize> {
         if let Some((after, off)) = self.fail_read {
-            if self.seeks >= after && self.data.position() + buf.len() as u64 > off && self.data.position() <= off {
+            let pos = self.data.position();
+            if self.seeks >= after && pos + buf.len() as u64 > off && pos <= off {
+                if pos < off {
+                    // deliver the bytes before the fault first: the error arrives exactly at offset `off`
+                    let k = (off - pos) as usize;
+                    return self.data.read(&mut buf[..k]);
+                }
                 *self.reached.lock().unwrap() = true;
                 self.fail_read = None;
-                return Err(std::io::Error::other("injected read fault"));
+                return Err(std::io::Error::new(self.kind, "injected read fault"));
             }
         }
         self.data.read(buf)
@@ -268,7 +275,7 @@ impl std::io::Seek for Faulty {
             self.seeks += 1;
             if self.fail_seek_at == Some(self.seeks) {
                 *self.reached.lock().unwrap() = true;
-                return Err(std::io::Error::other("injected seek fault"));
+                return Err(std::io::Error::new(self.kind, "injected seek fault"));
             }
         }
         self.data.seek(pos)
@@ -277,6 +284,97 @@ impl std::io::Seek for Faulty {
 
 fn has_io_fault(e: &anyhow::Error) -> bool {
     e.chain().any(|c| c.to_string().contains("injected"))
+}
+
+/// A compressed key file that ends early: cut at an arbitrary byte, or written
+/// line by line with a flush after every line and never finished (so that the
+/// decoder delivers whole lines and then reports the missing end). Whenever the
+/// harness' own decoder reports an error on the stream, the build must fail.
+fn truncated_stream_case(cx: &mut Ctx, kind: u8, keys: &[String], text: &[u8], with_dup: bool, filter: bool, (flushed, sel): (bool, u64)) -> R {
+    use std::io::{Read, Write};
+    use sux::bits::BitFieldVec;
+    use sux::func::shard_edge::FuseLge3Shards;
+    use sux::func::VBuilder;
+    use sux::utils::{GzipLineLender, ZstdLineLender};
+    let lines: Vec<&[u8]> = text.split_inclusive(|b| *b == b'\n').collect();
+    let bytes: Vec<u8> = if flushed {
+        let k = sel as usize % (lines.len() + 1);
+        if kind == 1 {
+            let mut e = zstd::stream::write::Encoder::new(Vec::new(), 1).unwrap();
+            for l in &lines[..k] {
+                e.write_all(l).unwrap();
+                e.flush().unwrap();
+            }
+            e.get_ref().clone()
+        } else {
+            let mut e = flate2::write::GzEncoder::new(Vec::new(), flate2::Compression::fast());
+            for l in &lines[..k] {
+                e.write_all(l).unwrap();
+                e.flush().unwrap();
+            }
+            e.get_ref().clone()
+        }
+    } else {
+        let full = if kind == 1 {
+            zstd::encode_all(text, 1).unwrap()
+        } else {
+            let mut e = flate2::write::GzEncoder::new(Vec::new(), flate2::Compression::fast());
+            e.write_all(text).unwrap();
+            e.finish().unwrap()
+        };
+        let t = sel as usize % full.len().max(1);
+        full[..t].to_vec()
+    };
+    // the harness' own decoder decides whether the stream is broken
+    let mut sink = Vec::new();
+    let broken = if kind == 1 {
+        match zstd::stream::read::Decoder::new(&bytes[..]) {
+            Ok(mut d) => d.read_to_end(&mut sink).is_err(),
+            Err(_) => true,
+        }
+    } else {
+        flate2::read::GzDecoder::new(&bytes[..]).read_to_end(&mut sink).is_err()
+    };
+    let at_line_boundary = sink.is_empty() || sink.ends_with(b"\n");
+    cx.hash(&("truncated", kind, keys.len(), with_dup, filter, flushed, sel));
+    cx.describe(|| format!("{} key stream of {} keys ending early ({}): {} compressed bytes, own decoder: {} after {} decoded bytes{}", if kind == 1 { "zstd" } else { "gzip" }, keys.len(), if flushed { "flushed lines, no trailer" } else { "cut" }, bytes.len(), if broken { "error" } else { "clean end" }, sink.len(), if at_line_boundary { " (a line boundary)" } else { "" }));
+    cx.label("truncated_compressed_stream");
+    cx.label_if(broken, "stream_broken");
+    cx.label_if(broken && at_line_boundary, "broken_at_line_boundary");
+    cx.nontrivial_if(broken);
+    if !broken {
+        return Ok(());
+    }
+    let total = keys.len();
+    let values = Arc::new((0..total).collect::<Vec<usize>>());
+    let vl = PlanLender::new(values, Fault::None, "values", Arc::new(Mutex::new(Log::default())));
+    let builder = || VBuilder::<usize, BitFieldVec<usize>, [u64; 2], FuseLge3Shards>::default().check_dups(with_dup);
+    let src = std::io::Cursor::new(bytes);
+    macro_rules! go {
+        ($lender:expr) => {{
+            let lender = $lender;
+            if filter {
+                cx.must("try_build_filter", || builder().try_build_filter(lender, 8, dsi_progress_logger::no_logging![]))?.map(|f| f.len())
+            } else {
+                cx.must("try_build_func", || builder().try_build_func(lender, vl, dsi_progress_logger::no_logging![]))?.map(|f| f.len())
+            }
+        }};
+    }
+    let out: anyhow::Result<usize> = if kind == 1 {
+        match ZstdLineLender::new(src) {
+            Ok(l) => go!(l),
+            Err(e) => Err(e.into()),
+        }
+    } else {
+        match GzipLineLender::new(src) {
+            Ok(l) => go!(l),
+            Err(e) => Err(e.into()),
+        }
+    };
+    if let Ok(len) = out {
+        return Err(Fail::mismatch("ok_after_fault", format!("ok_after_fault: the build returned Ok (len {len}) on a {} key stream that ends early: its decoder reports an error after {} decoded bytes{} ({total} keys were written)", if kind == 1 { "zstd" } else { "gzip" }, sink.len(), if at_line_boundary { ", at a line boundary" } else { "" })));
+    }
+    Ok(())
 }
 
 fn crate_lender_case(cx: &mut Ctx, u: &mut Unstructured) -> R {
@@ -299,8 +397,28 @@ fn crate_lender_case(cx: &mut Ctx, u: &mut Unstructured) -> R {
         keys.push(k);
     }
     let text: Vec<u8> = keys.iter().flat_map(|k| k.bytes().chain([b'\n'])).collect();
-    let fail_read = if fail_seek_at.is_none() { Some((u.int_in_range(0usize..=2).unwrap_or(1), u.int_in_range(0u64..=text.len() as u64 + 10).unwrap_or(3))) } else { None };
-    cx.hash(&("crate-lender", kind, n, with_dup, filter, fail_seek_at, fail_read));
+    let fail_read = if fail_seek_at.is_none() {
+        let after = u.int_in_range(0usize..=2).unwrap_or(1);
+        let mut off = u.int_in_range(0u64..=text.len() as u64 + 10).unwrap_or(3);
+        if u.arbitrary::<bool>().unwrap_or(false) {
+            // exactly at the start of a line (or at the very end): nothing of the current line has been read
+            let starts: Vec<u64> = std::iter::once(0).chain(text.iter().enumerate().filter(|(_, b)| **b == b'\n').map(|(i, _)| i as u64 + 1)).collect();
+            off = starts[off as usize % starts.len()];
+        }
+        Some((after, off))
+    } else {
+        None
+    };
+    use std::io::ErrorKind as EK;
+    let ekind = [EK::Other, EK::UnexpectedEof, EK::InvalidData, EK::BrokenPipe, EK::TimedOut, EK::PermissionDenied, EK::UnexpectedEof, EK::NotFound][u.int_in_range(0usize..=7).unwrap_or(0)];
+    // compressed streams only: instead of an injected fault, a stream that ends early (truncated file, or a
+    // writer that flushed whole lines and died before writing the trailer): the decoder reports the error
+    let truncation: Option<(bool, u64)> = if kind != 0 && u.int_in_range(0u8..=3).unwrap_or(1) == 0 { Some((u.arbitrary().unwrap_or(false), u.arbitrary::<u16>().unwrap_or(7) as u64)) } else { None };
+    if truncation.is_some() {
+        return truncated_stream_case(cx, kind, &keys, &text, with_dup, filter, truncation.unwrap());
+    }
+    cx.hash(&("crate-lender", kind, n, with_dup, filter, fail_seek_at, fail_read, format!("{ekind:?}")));
+    cx.label(&format!("kind:{ekind:?}"));
     cx.describe(|| format!("crate lender kind {kind} over a faulty source: {} keys (dup: {with_dup}), filter: {filter}, fail_seek_at {fail_seek_at:?}, fail_read {fail_read:?}", keys.len()));
     cx.label("crate_lender_over_faulty_source");
     cx.label(["LineLender", "ZstdLineLender", "GzipLineLender"][kind as usize]);
@@ -317,7 +435,7 @@ fn crate_lender_case(cx: &mut Ctx, u: &mut Unstructured) -> R {
     };
     // for compressed streams the read fault offset refers to compressed bytes
     let fail_read = fail_read.map(|(a, o)| (a, o.min(bytes.len() as u64)));
-    let src = Faulty { data: std::io::Cursor::new(bytes), seeks: 0, fail_seek_at, fail_read, reached: reached.clone() };
+    let src = Faulty { data: std::io::Cursor::new(bytes), seeks: 0, fail_seek_at, fail_read, kind: ekind, reached: reached.clone() };
     let total = keys.len();
     let values = Arc::new((0..total).collect::<Vec<usize>>());
     let vl = PlanLender::new(values.clone(), Fault::None, "values", Arc::new(Mutex::new(Log::default())));
@@ -392,7 +510,7 @@ impl Property for C17 {
         true
     }
     fn rule(&self) -> &'static str {
-        "fault sequences owned by the harness: keys and values come from lenders implementing RewindableIoLender with a fault plan (fail at item j of pass p, j = n meaning at the end of the stream; fail the rewind after pass p; none). Enumerated completely for 6 table rows x n in {0,1,2,3,5,8,13,21} x stream x p in 0..=4 x j in 0..=n and rewind faults after passes 0..=3, each with and without a duplicate key (duplicates with check_dups force exactly three retry passes, so faults in passes 1..=3 are reached deterministically); plus random (row, n<=300, configuration, function/filter, fault plans, duplicate plans with multiplicity 2/3/10 at first/last/interior positions, adjacent or spread), plus duplicates (multiplicity up to 3000) in sets of 1e5..2e5 keys crossing shard boundaries, plus the crate's own LineLender/ZstdLineLender/GzipLineLender over a harness Read+Seek source whose k-th seek or a read at a given offset fails (retries forced by a duplicate or made likely by 101..112 keys). Oracle: a fault that was reached => Err whose chain contains the injected error; duplicates with check_dups => Err after exactly 3 rewinds; otherwise Ok with len()==n and every pair verified; Ok with any wrong pair is a violation in all cases; more rewinds than the deterministic attempt bound => nonconv. Non-trivial: the fault was reached in a retry pass, or a duplicate not adjacent to its twin; distinct = distinct hash of the decoded spec."
+        "fault sequences owned by the harness: keys and values come from lenders implementing RewindableIoLender with a fault plan (fail at item j of pass p, j = n meaning at the end of the stream; fail the rewind after pass p; none). Enumerated completely for 6 table rows x n in {0,1,2,3,5,8,13,21} x stream x p in 0..=4 x j in 0..=n and rewind faults after passes 0..=3, each with and without a duplicate key (duplicates with check_dups force exactly three retry passes, so faults in passes 1..=3 are reached deterministically); plus random (row, n<=300, configuration, function/filter, fault plans, duplicate plans with multiplicity 2/3/10 at first/last/interior positions, adjacent or spread), plus duplicates (multiplicity up to 3000) in sets of 1e5..2e5 keys crossing shard boundaries, plus the crate's own LineLender/ZstdLineLender/GzipLineLender over a harness Read+Seek source whose k-th seek or a read at an exact byte offset (arbitrary or the start of a line) fails with one of seven io::ErrorKinds (retries forced by a duplicate or made likely by 101..112 keys), and gzip/zstd key streams that end early (cut at any byte, or flushed line by line and never finished): whenever the harness' own decoder reports an error the build must fail. Oracle: a fault that was reached => Err whose chain contains the injected error; duplicates with check_dups => Err after exactly 3 rewinds; otherwise Ok with len()==n and every pair verified; Ok with any wrong pair is a violation in all cases; more rewinds than the deterministic attempt bound => nonconv. Non-trivial: the fault was reached in a retry pass, or a duplicate not adjacent to its twin; distinct = distinct hash of the decoded spec."
     }
     fn run(&self, data: &[u8], cx: &mut Ctx) -> R {
         let (mode, rest) = data.split_first().unwrap_or((&0, &[]));
